@@ -29,6 +29,8 @@ type X struct {
 	WaitStep     int // step at which Progress.Wait returned (0 = did not)
 	WritesAtWait int
 	FailWrite    int // fail the k-th output write (1-based), 0 = never
+	FaultStep    int // step at which the injected fault fired (0 = none)
+	FaultText    string
 	Viol         []string
 }
 
@@ -82,7 +84,11 @@ func (r Recorder) Write(p []byte) (int, error) {
 	k := len(r.x.Writes) + 1
 	if r.x.FailWrite != 0 && k >= r.x.FailWrite {
 		r.x.Writes = append(r.x.Writes, OutWrite{mcrt.Step(), "!ERR"})
-		return 0, fmt.Errorf("output write %d failed", k)
+		if r.x.FaultStep == 0 {
+			r.x.FaultStep = mcrt.Step()
+			r.x.FaultText = "output write failed"
+		}
+		return 0, fmt.Errorf("output write failed")
 	}
 	r.x.Writes = append(r.x.Writes, OutWrite{mcrt.Step(), string(p)})
 	return len(p), nil
